@@ -120,6 +120,37 @@ pub fn run(ctx: &Ctx, rep: &mut Report) {
             rep.violation("too_many_accepted", "from_cfg_storage", "a 15th user dictionary was accepted", "", json!({"world_index": wi, "world": world.describe(false)}));
             continue;
         }
+        // every fourth stack: the same user dictionaries written with the magic number of the previous format version
+        // (version 2 has the layout of version 3): the stack must load and behave identically
+        let world = if n_layers >= 1 && wi % 4 == 2 {
+            let mut w = world;
+            let v2: Vec<Vec<u8>> = w.user_bytes.iter().enumerate().map(|(i, b)| {
+                let mut b = b.clone();
+                if i % 2 == 0 && b.len() > 8 && b[..8] == 0xca9811756ff64fb0u64.to_le_bytes() {
+                    b[..8].copy_from_slice(&0x9fdeb5a90168d868u64.to_le_bytes());
+                }
+                b
+            }).collect();
+            let cfg = env::config(&w.cfg_json, &w.res);
+            match guard(|| env::load(&cfg, &w.sys_bytes, &v2, Place::Owned)) {
+                Ok(Ok(d)) => {
+                    w.dict = d;
+                    w.user_bytes = v2;
+                    rep.count("stacks_with_version_2_user_dictionaries", 1);
+                    w
+                }
+                Ok(Err(e)) => {
+                    rep.violation("load_error", "from_cfg_storage", &format!("the stack loads with version-3 user dictionaries but not when some carry the version-2 magic number: {:?}", e), "", json!({"world_index": wi, "layers": n_layers}));
+                    continue;
+                }
+                Err(pn) => {
+                    rep.violation("load_panic", &pn.site, &format!("user dictionaries with the version-2 magic number: {}", pn.msg), "", json!({"world_index": wi, "layers": n_layers}));
+                    continue;
+                }
+            }
+        } else {
+            world
+        };
         rep.count("stacks", 1);
         rep.max("max_layers", n_layers as u64);
         rep.count(&format!("plugin_registered_pos_{}", n_plugin_pos), 1);
